@@ -493,6 +493,9 @@ def correspondence(ctx):
                 k, l = dat[4], dat[5]
                 re, im = rep.split()
                 mod = C.w2f(re) + 1j * C.w2f(im)
+                if out.shape != (c['M'], c['N']):
+                    ctx.disagree(item, c, list(out.shape), list((c['M'], c['N'])), note='shape')
+                    continue
                 d = abs(out[k, l] - mod) if not any(c['shift']) else abs(abs(out[k, l]) - abs(mod))
                 if d > TOL * max(1.0, np.abs(out).max()):
                     ctx.disagree(item, dict(c, point=[k, l]), complex(out[k, l]), mod, note='Model.C03.fixedSampling pointwise')
